@@ -7,11 +7,13 @@ import (
 	_ "verif/harness/props/c04"
 	_ "verif/harness/props/c05"
 	_ "verif/harness/props/c06"
+	_ "verif/harness/props/c07"
 	_ "verif/harness/props/c08"
 	_ "verif/harness/props/c09"
 	_ "verif/harness/props/c10"
 	_ "verif/harness/props/c11"
 	_ "verif/harness/props/c12"
+	_ "verif/harness/props/c13"
 	_ "verif/harness/props/c16"
 	_ "verif/harness/props/c17"
 	_ "verif/harness/props/c18"
